@@ -4,7 +4,7 @@ from concurrent.futures import ThreadPoolExecutor
 
 LEVEL = "proof"
 LIBS = ["PgpCodecLemmas.vo", "PgpSigLemmas.vo"]
-PARTS = ["hash", "validity", "sig-rsa", "sig-dsa", "sig-ecdsa", "sig-eddsa", "enc-mdc", "enc-aead", "aead-nonce", "pke"]
+PARTS = ["hash", "validity", "sigfields", "sig-rsa", "sig-dsa", "sig-ecdsa", "sig-eddsa", "enc-mdc", "enc-aead", "aead-nonce", "pke"]
 
 def run(res, tier, seed, replay):
     res.cov["rule"] = ("records = octets given to the hash function for every signature kind (document, text, standalone, certification, "
